@@ -80,7 +80,9 @@ class DaskSim:
         step_budget: int = 200000,
         on_task: Optional[Callable[[Tuple, Any], None]] = None,
         log_tasks: bool = True,
+        tag: str = "",
     ):
+        self.tag = tag
         self.ch = chooser
         self.log = log
         self.workers = max(1, workers)
@@ -147,6 +149,8 @@ class DaskSim:
             raise HarnessError("cycle in task graph")
         canon = Canon(dsk, depth)
         cname = {k: canon(k) for k in dsk}
+        if self.tag:
+            cname = {k: (f"{self.tag}:{c[0]}", *c[1:]) for k, c in cname.items()}
         if len(set(cname.values())) != len(cname):
             raise HarnessError("canonical task names collide")
         by_c = {c: k for k, c in cname.items()}
@@ -237,7 +241,7 @@ class DaskSim:
                         continue
                     assert kernel is not None
                     wid += 1
-                    name = f"w{wid}"
+                    name = f"{self.tag}w{wid}"
                     kernel.spawn(name, lambda k=k: run_inline(k))
                     running[name] = k
                     self.max_parallel = max(self.max_parallel, len(running))
